@@ -513,7 +513,7 @@ def shard_c(arg, acc):
 # ---------------------------------------------------------------------------
 # (e) arguments of %include / %import: URL-shaped junk
 
-URL_TOKENS = ["a.invalid", ":", "/", "[", "]", "#", "%", "\x00", "@", "?", "9", "..", "package", "file", " x"]
+URL_TOKENS = ["a.invalid", ":", "/", "[", "]", "#", "%", "\x00", "@", "?", "9", "..", "package", "file", " x", "[::1"]
 URL_PREFIXES = ["", "http:", "http://", "file:", "file://", "ftp://", "package:", "package:os:", "//", "mailto:",
                 "HTTP://", "data:"]
 
@@ -534,17 +534,21 @@ def shard_e(arg, acc):
                 line = directive + " " + arg_
                 text = ("<s>\n  %s\n</s>\n" % line) if ctx else (line + "\n")
                 acc.current = text
-                r = H.load(sch, text, url="file:///v/g/main.conf")
-                acc.ev()
-                acc.transitions += 1
-                acc.nt()
-                acc.cls("directive-arg-" + classify(r).split(":")[0])
-                if r[0] == "internal":
-                    d = core.exc_desc(r[1])
-                    acc.violation("internal-error-escapes", {"text": text, "directive_argument": arg_}, d,
-                                  "ZConfig.ConfigurationError family",
-                                  tags={"kind": "internal-error", "exc": d["class"], "where": d["where"],
-                                        "input": "directive-argument"})
+                for top_url in ("file:///v/g/main.conf", None):
+                    if top_url is None and (ctx or directive != "%include"):
+                        continue
+                    r = H.load(sch, text, url=top_url) if top_url else load_anonymous(sch, {}, text)
+                    acc.ev()
+                    acc.transitions += 1
+                    acc.nt()
+                    acc.cls("directive-arg-" + classify(r).split(":")[0])
+                    if r[0] == "internal":
+                        d = core.exc_desc(r[1])
+                        acc.violation("internal-error-escapes",
+                                      {"text": text, "directive_argument": arg_, "top_url": top_url}, d,
+                                      "ZConfig.ConfigurationError family",
+                                      tags={"kind": "internal-error", "exc": d["class"], "where": d["where"],
+                                            "input": "directive-argument"})
     return acc
 
 
@@ -640,7 +644,7 @@ def run(tier):
              "pairs; (c) all 512 include graphs over "
              "3 in-memory resources x {top level, inside a section}; (d) validator.main in-process on singles, pairs "
              "and triples of files; (e) '%%include' (top level and inside a section) and '%%import' with every argument made of a "
-             "URL prefix (12) + <= %d tokens from a 15-token URL alphabet ('[', ']', ':', '#', NUL, '..', 'package', an "
+             "URL prefix (12) + <= %d tokens from a 16-token URL alphabet ('[', ']', ':', '#', NUL, '..', 'package', an "
              "unresolvable host ...).  states = seeds, transitions = loads.  Non-trivial = mutated input whose "
              "outcome class differs from its seed's / graph with >= 1 edge / validator run on >= 2 files."
              % ("" if tier == "quick" else ", pairs of mutations for seeds <= 5 lines", 2 if tier == "quick" else 3),
@@ -687,7 +691,10 @@ def replay(body):
             r = H.load_mem(sch, case["files"], URLS[0])
         elif "directive_argument" in case:
             sch = H.load_schema(GRAPH_SCHEMA)
-            r = H.load(sch, case["text"], url="file:///v/g/main.conf")
+            if case.get("top_url", "file:///v/g/main.conf"):
+                r = H.load(sch, case["text"], url="file:///v/g/main.conf")
+            else:
+                r = load_anonymous(sch, {}, case["text"])
         elif "overrides" in case:
             sch = H.load_schema(case["member"]["schema"])
             r = H.load(sch, case["text"], overrides=case["overrides"])
